@@ -7,3 +7,8 @@ import XProofs.Properties.C08
 #print axioms Properties.C08.C08_value_range_is
 #print axioms Properties.C08.C08_compose
 #print axioms Properties.C08.C08_count_selector
+#print axioms Properties.C08.C08_name_span
+#print axioms Properties.C08.C08_name_span_by_column
+#print axioms Properties.C08.C08_name_span_general
+#print axioms Properties.C08.C08_name_span_error
+#print axioms Properties.C08.C08_name_span_rows
